@@ -15,7 +15,7 @@ for d in sorted(glob.glob(os.path.join(V, "seeded", "*"))):
     if not os.path.exists(mp):
         continue
     m = json.load(open(mp))
-    caught = ", ".join(m.get("caught_by", [])) or "**missed** by " + ", ".join(m.get("missed_by", []))
+    caught = ", ".join(m.get("caught_by", [])) or ("not judged: " if m.get("out_of_scope") else "**missed** by ") + ", ".join(m.get("missed_by", []))
     desc = (m.get("title") or "")[:140] + " — needs: " + (m.get("needs") or "")[:200]
     rows.append("| %s | %s | %s | %s | %s |" % (os.path.basename(d), m.get("property"), desc.replace("|", "\\|").replace("\n", " "), caught, (m.get("strengthened") or m.get("note") or "").replace("|", "\\|")))
 seeded = "\n".join(rows)
